@@ -143,6 +143,33 @@ def run(ctx, info):
             bl = coqlist(bparts)
         items.append(f"KTask {tl} {task.space_dimension}%nat {len(flat)}%nat {bl}")
         metas.append({**meta, "what": "dimension/bounds"})
+        # ---- an EDITED task: after the task has been used, its variables are replaced by others of the same kinds and sizes with narrower / shifted domains
+        # (task.variables = [...], pydantic models are mutable): every accessor must describe the CURRENT variables, exactly as a freshly built task does
+        if r.random() < 0.25 and tspec[0][0] != "perm":
+            def narrowed(k, s_):
+                if k == "cont": return (s_[0] + 0.25 * (s_[1] - s_[0]), s_[1] - 0.25 * (s_[1] - s_[0]))
+                if k in ("contmulti", "multiobj"): return ([a + 0.25 * (b - a) for a, b in zip(*s_)], [b - 0.25 * (b - a) for a, b in zip(*s_)])
+                if k == "disc": return max(1, s_ - 1)
+                if k == "discmulti": return [max(1, c - 1) for c in s_]
+                return s_
+            tspec2 = [(k, narrowed(k, s_)) for k, s_ in tspec]
+            try:
+                fresh, vs2 = mk_task(tspec2)
+                used, _ = mk_task(tspec)
+                probe = [c for c in norm(used.empty_solution())]
+                used.correct_solution(probe); used.get_bounds(); used.get_variables()          # the task has been used
+                used.variables = vs2
+                probe2 = norm(fresh.empty_solution())
+                wide = [(v * 3 + 1 if not isinstance(v, list) else v) for v in probe]          # mostly outside the narrowed domains
+                agree = (norm(used.correct_solution(list(wide))) == norm(fresh.correct_solution(list(wide)))
+                        and [norm(b) for b in used.get_bounds()] == [norm(b) for b in fresh.get_bounds()]
+                        and len(used.get_variables()) == len(fresh.get_variables())
+                        and repr(used.transform_solution(list(probe2))) == repr(fresh.transform_solution(list(probe2))))
+                if not agree:
+                    ctx.violation("edited-task", f"after `task.variables = ...` on a task that has been used, correct_solution / get_bounds / get_variables / transform_solution still "
+                                  f"describe the OLD variables (a fresh task with the new variables answers differently): {tspec!r} -> {tspec2!r}", {**meta, "edited_to": tspec2})
+            except Exception as ex_:
+                ctx.note(f"edited-task case skipped: {type(ex_).__name__}")
         # ---- random solution
         try:
             es = norm(task.empty_solution())
